@@ -131,7 +131,11 @@ package dns
 //@   opt no-safety
 //@   assert at "return toBase32(nsec3)" rounds: k == iter
 //@   loop 1 invariant k <= iter
-//@   callsite "PackDomainName" lower: arg0 == callres("ToLower") && callarg("ToLower", 0) == label && arg2 == 0 && arg3 == nil && !arg4
+// x is the wire form of the name as given, with the ASCII letters A-Z of its octets lower-cased and no other octet
+// changed (names are octet strings: a letter written \DDD is a letter, an octet above 127 is not text)
+//@   ghost pk at "name = name[:off]" name
+//@   assert at "s := sha1.New()" canon: callarg("PackDomainName", 0) == label && len(name) == len(pk) && (forall k in 0..len(name) :: name[k] == lower(pk[k]))
+//@   callsite "PackDomainName" whole: arg2 == 0 && arg3 == nil && !arg4
 //@   assert at "s.Write(wireSalt)@1" name1: same(callarg("Write", 0), name) && len(name) == off
 //@   assert at "s.Write(wireSalt)@2" prev: same(callarg("Write", 0), nsec3)
 //@   assert at "nsec3 := s.Sum(nil)" first: same(callarg("Write", 0), wireSalt)
